@@ -110,7 +110,7 @@ package streams
 
 //@ func (streams.JSONResolver).Resolve
 //@ params this, ctx, m
-//@ modifies nCalls, callFn, callArg, callErr, gK, decodedBy, gDecoded, gDecErr, nDecode, gAlias, gTS, MD:String:String, MV:String:String
+//@ modifies nCalls, callFn, callArg, callErr, gK, decodedBy, gDecoded, gDecErr, nDecode, gAlias, gTS, nTried, gLastErr, MD:String:String, MV:String:String
 //@ [C14] at call streams.toAliasMap#1: ghost gAlias = $res0
 //@ [C14] at call dyn.handleFn#*: ghost gTS = $arg0
 //@ [C14] ensures at_most_one_callback: nCalls == old(nCalls) || nCalls == old(nCalls) + 1
@@ -121,11 +121,15 @@ package streams
 //@ [C14] ensures unmatched_for_undefined_single_type: has(m, "type") && has(m, "@context") && m["type"].dyn == typetag("string") && jsonTypeIndex(unboxstr(m["type"]), cast(gAlias, "map[string]string")) == 0 ==> nCalls == old(nCalls) && result == streams.ErrUnhandledType
 //@ [C14] ensures missing_type_or_context_is_an_error: !has(m, "type") || !has(m, "@context") ==> nCalls == old(nCalls) && result != nil
 //@ loop 1 [C14] invariant nothing_invoked_yet: nCalls == old(nCalls)
+//@ [C14] at call dyn.handleFn#*: ghost nTried = nTried + 1
+//@ [C14] at call dyn.handleFn#*: ghost gLastErr = $res0
+//@ loop 1 [C14] invariant next_type_tried_only_after_unhandled_type: nTried == old(nTried) || gLastErr == streams.ErrUnhandledType
+//@ loop 1 [C14] invariant earlier_type_entries_are_not_defined_types: forall k Int :: {typeIArr[k]} 0 <= k && k <= $ri ==> !(typeIArr[k].dyn == typetag("string") && jsonTypeIndex(unboxstr(typeIArr[k]), cast(gAlias, "map[string]string")) != 0)
 
 // ToType: a JSONResolver built from one callback per type (each stores its argument in the result).
 //@ func streams.ToType
 //@ params c, m
-//@ modifies nCalls, callFn, callArg, callErr, gK, decodedBy, gDecoded, gDecErr, nDecode, gAlias, gTS, MD:String:String, MV:String:String
+//@ modifies nCalls, callFn, callArg, callErr, gK, decodedBy, gDecoded, gDecErr, nDecode, gAlias, gTS, nTried, gLastErr, MD:String:String, MV:String:String
 //@ [C14] at call streams.NewJSONResolver#1: assert every_callback_has_a_legal_shape: forall j Int :: {$arg0[j]} 0 <= j && j < len($arg0) ==> legalCallback($arg0[j])
 //@ [C14] ensures at_most_one_callback: nCalls == old(nCalls) || nCalls == old(nCalls) + 1
 //@ [C14] ensures resolver_error_returned_unchanged: nCalls == old(nCalls) + 1 ==> result1 == callErr
